@@ -56,6 +56,14 @@ def rt(wr, rd, val, pool=None, eq=None):
         return ("not-exactly-consumed", len(data), s.tell()), data
     if not (eq(got, val) if eq else got == val):
         return ("value-changed", repr(got)[:80], data.hex()), data
+    # canonical: writing what was read gives the same bytes again (same pool)
+    b2 = io.BytesIO()
+    try:
+        wr(W._ctor(b2, wpool), got)
+    except Exception as e:  # noqa: BLE001
+        return ("rewrite-raised", repr(e)[:80]), data
+    if b2.getvalue() != data:
+        return ("rewrite-differs", b2.getvalue().hex()[:80], data.hex()[:80]), data
     return None, data
 
 
@@ -129,6 +137,38 @@ def run_prims(ctx):
         p, data = rt(lambda w, x: w.write_dictionary(x), lambda r: r.read_dictionary(), d)
         ctx.ev(); ctx.counters["strings"] += 1; ctx.key(("dict", n))
         if p: ctx.V(f"C14:dictionary:{p[0]}", f"write_dictionary({n} entries): {p}", {"kind": "dict", "n": n}, p)
+    # one writer, many writes, caller-owned pool: the list belongs to the caller (the repository's own I/O helper clears it between
+    # round trips, a pool optimiser reorders it); every string written must decode with the pool as it stands afterwards
+    R, W = codec()
+    words = ["STD", "DST", "LMT", "Zone/One", "X", "", "Europe/London", "é", "a" * 200]
+    for trial in range(60 if ctx.tier == "quick" else 1200):
+        pl = rng.sample(words, rng.randint(0, 4)); b = io.BytesIO(); w = W._ctor(b, pl)
+        written = []
+        ok = True
+        for step in range(rng.randint(2, 5)):
+            for s in rng.choices(words, k=rng.randint(1, 5)):
+                try:
+                    w.write_string(s); written.append(s)
+                except Exception as e:  # noqa: BLE001
+                    ctx.exc(e); ctx.V("C14:string-sequence:write-raised", f"write_string({s!r}) raised {e!r} on a writer whose pool the caller had changed", {"kind": "stringseq"}); ok = False; break
+            if not ok: break
+            # decode everything written since the last pool change
+            data = b.getvalue(); r = R._ctor(io.BytesIO(data), pl)
+            try:
+                got = [r.read_string() for _ in written]
+            except Exception as e:  # noqa: BLE001
+                ctx.exc(e); got = repr(e)
+            ctx.ev(); ctx.counters["string_sequences"] += 1; ctx.key(("stringseq", step, len(pl) > 4))
+            if got != written:
+                ctx.V("C14:string-sequence:reads-other", f"strings {written!r} written through one pooled writer (pool changed by its owner between batches) read back as {got!r} with the final pool {pl!r}", {"kind": "stringseq"}, got, written)
+                break
+            # the owner changes the pool, then starts a new batch on the same writer
+            how = rng.randrange(4)
+            if how == 0: pl.clear()
+            elif how == 1: pl.reverse()
+            elif how == 2: pl.sort()
+            else: pl.insert(0, "NEW%d" % step)
+            b.seek(0); b.truncate(); written = []
     ctx.sample({"kind": "millis", "v": 1800030, "compact_bytes": millis_len(1800030)})
 
 
@@ -231,10 +271,12 @@ def run_composites(ctx):
             if p: ctx.V(f"C14:recurrence:{p[0]}", f"_ZoneRecurrence {rec!r} (pool={pl is not None}): {p}", {"kind": "recurrence", "repr": repr(rec)}, p)
     for _ in range(n // 4):
         std = Offset.from_seconds(rng.choice([0, 3600, -18000, 19800, 34200, rng.randrange(-50000, 50000)]))
-        sav = Offset.from_seconds(rng.choice([3600, 1800, 7200, -3600]))
+        sav = Offset.from_seconds(rng.choice([3600, 1800, 7200, -3600, 0, 1]))
         y1, y2 = gen_yo(), gen_yo()
+        r_std, r_dst = _ZoneRecurrence("STD", Offset.zero, y1, -(2**31), 2**31 - 1), _ZoneRecurrence("DST", sav, y2, -(2**31), 2**31 - 1)
+        if rng.random() < 0.5: r_std, r_dst = r_dst, r_std      # the two recurrences may be given in either order
         try:
-            m = _StandardDaylightAlternatingMap._ctor(std, _ZoneRecurrence("STD", Offset.zero, y1, -(2**31), 2**31 - 1), _ZoneRecurrence("DST", sav, y2, -(2**31), 2**31 - 1))
+            m = _StandardDaylightAlternatingMap._ctor(std, r_std, r_dst)
         except Exception as e:  # noqa: BLE001
             ctx.exc(e); continue
         p, data = rt(lambda w, x: x._write(w), lambda r: _StandardDaylightAlternatingMap._read(r), m, pool=pool)
